@@ -409,6 +409,18 @@ func (w *world) applyMore(x *wallet.Wallet, tok string, op Op) (Obs, bool) {
 		}
 
 		return Obs{Out: classify(err), Err: errStr(err)}, true
+	case "keynomat":
+		// a Key content without private key material (nothing to import), in one of four shapes
+		_, _, vm := w.edKey(op.KN)
+		doc := [...]string{
+			fmt.Sprintf(`{"id":"%s","type":"Ed25519VerificationKey2018"}`, vm),
+			`{}`,
+			fmt.Sprintf(`{"id":"%s","type":"Ed25519VerificationKey2018","privateKeyBase58":""}`, vm),
+			fmt.Sprintf(`{"@context":["https://w3id.org/wallet/v1"],"id":"%s","controller":"did:example:c19","type":"Bls12381G1Key2020"}`, vm),
+		}[op.KN&3]
+		err := x.Add(tok, wallet.Key, []byte(doc))
+
+		return Obs{Out: classify(err), Err: errStr(err)}, true
 	case "addin":
 		b, err := w.contentFor(op.C, op.V)
 		if err != nil {
